@@ -581,8 +581,14 @@ func checkModel(m *ref.SpecModel, text string, toks []ref.Tok) error {
 		for _, r := range m.Rules() {
 			heads[r.Name] = true
 		}
-		if want, have := len(heads)+distinctBrackets(m.Rules()), sp.Grammar.NonTerminals.Size(); want != have {
-			return fmt.Errorf("the specification has %d rule names and %d distinct bracketed operands (per operator), the grammar emerge derives has %d non-terminals instead of %d\nspecification:\n%s\ngrammar:\n%v", len(heads), distinctBrackets(m.Rules()), have, want, text, sp.Grammar)
+		// (only when no operand lists an alternative twice: emerge files operands under a digest of the sorted list
+		// of alternatives, and lists with repeated or empty entries may or may not end up under one entry)
+		if n, exact := distinctBrackets(m.Rules()); exact {
+			if want, have := len(heads)+n, sp.Grammar.NonTerminals.Size(); want != have {
+				return fmt.Errorf("the specification has %d rule names and %d distinct bracketed operands (per operator), the grammar emerge derives has %d non-terminals instead of %d\nspecification:\n%s\ngrammar:\n%v", len(heads), n, have, want, text, sp.Grammar)
+			}
+		} else {
+			rec.Count("non_terminal_count_not_compared_repeated_alternatives", 1)
 		}
 	}
 	return nil
@@ -590,8 +596,9 @@ func checkModel(m *ref.SpecModel, text string, toks []ref.Tok) error {
 
 // distinctBrackets counts the distinct (operator, operand) pairs of the rules, where an operand is the list of its
 // alternatives in any order, each a sequence of symbols, and a nested bracket counts as the symbol it stands for.
-func distinctBrackets(rules []*ref.Decl) int {
+func distinctBrackets(rules []*ref.Decl) (int, bool) {
 	keys := map[string]bool{}
+	exact := true
 	var seqs func(r *ref.RHS) []string
 	seqs = func(r *ref.RHS) []string {
 		if r == nil {
@@ -627,6 +634,11 @@ func distinctBrackets(rules []*ref.Decl) int {
 			// digest of the sorted list of alternatives)
 			alts := append([]string{}, seqs(r.Subs[0])...)
 			sort.Strings(alts)
+			for i := 1; i < len(alts); i++ {
+				if alts[i] == alts[i-1] {
+					exact = false
+				}
+			}
 			key := r.K + "#" + strings.Join(alts, "|")
 			keys[key] = true
 			return []string{"g:<" + key + ">"}
@@ -635,7 +647,7 @@ func distinctBrackets(rules []*ref.Decl) int {
 	for _, r := range rules {
 		seqs(r.RHS)
 	}
-	return len(keys)
+	return len(keys), exact
 }
 
 // preorder lists the canonical nodes (kind:name) in pre-order; Concat/Alt/brackets are interior nodes.
@@ -809,6 +821,7 @@ func TestTreesReflectSource(t *testing.T) {
 			for _, d := range m.Decls {
 				if d.Kind == "rule" {
 					d.RHS = addParens(t, d.RHS)
+					moreEmpties(t, d.RHS)
 				}
 				// token values that end in an escaped delimiter (the trees hold the text between the delimiters as written)
 				if d.Kind == "token" && rapid.IntRange(0, 3).Draw(t, "escapedDelimiter") == 0 {
@@ -837,6 +850,20 @@ func TestTreesReflectSource(t *testing.T) {
 			rec.Fail(t, "model", input{Model: m, Text: text}, "%v", err)
 		}
 	})
+}
+
+// moreEmpties writes a second empty alternative after a trailing one ("a" | | ;): each written operand is an operand
+// of the typed tree.
+func moreEmpties(t *rapid.T, r *ref.RHS) {
+	if r == nil {
+		return
+	}
+	for _, s := range r.Subs {
+		moreEmpties(t, s)
+	}
+	if n := len(r.Subs); r.K == "alt" && n >= 2 && r.Subs[n-1].K == "empty" && rapid.IntRange(0, 3).Draw(t, "secondEmpty") == 0 {
+		r.Subs = append(r.Subs, &ref.RHS{K: "empty"})
+	}
 }
 
 func TestReplay(t *testing.T) {
